@@ -385,11 +385,30 @@ def check_read_loop(ctx):
     recvs = [n for n in cfg.real_nodes() if any(c.endswith(".recv") for c in n.call_names())]
     ctx.require(len(recvs) == 1 and isinstance(recvs[0].ast, ast.Assign), f"{q}: recv statement not found")
     rv = recvs[0].ast.targets[0].id
-    zero_tests = [n for n in cfg.nodes if n.kind == "test" and norm(n.ast) in (f"len({rv}) == 0", f"not {rv}", f"{rv} == b''", f"len({rv}) < 1")]
+    # the test for an empty read in any spelling and either orientation (`len(x) == 0`, `not x`, `len(x) >= 1` with the close in the else arm)
+    zero_tests, zero_label = [], {}
+    for n in cfg.nodes:
+        if n.kind != "test":
+            continue
+        if norm(n.ast) in (f"not {rv}", f"{rv} == b''"):
+            zero_tests.append(n)
+            zero_label[id(n)] = "true"
+            continue
+        if norm(n.ast) in (rv, f"{rv} != b''"):
+            zero_tests.append(n)
+            zero_label[id(n)] = "false"
+            continue
+        fs = cnd.canon(n.ast, True)
+        if fs in ({(f"len({rv}) < 1", True)}, {(f"len({rv}) == 0", True)}, {(rv, False)}):
+            zero_tests.append(n)
+            zero_label[id(n)] = "true"
+        elif fs in ({(f"len({rv}) < 1", False)}, {(f"len({rv}) == 0", False)}, {(rv, True)}):
+            zero_tests.append(n)
+            zero_label[id(n)] = "false"
     ok = len(zero_tests) == 1
     ctx.ob("C09.P3", q, ok, "a zero-length recv (peer closed) is recognised" if ok else "no test for a zero-length recv: a closed peer is never noticed and the read loop spins", key="zero-test", where=f.where)
     if ok:
-        Z = rules.branch_marker(zero_tests[0], "true")
+        Z = rules.branch_marker(zero_tests[0], zero_label[id(zero_tests[0])])
         sets = [n for n in cfg.real_nodes() if isinstance(n.ast, ast.Assign) and cfg.dominates(Z, n)]
         assigned = {dotted(t): norm(n.ast.value) for n in sets for t in n.ast.targets}
         ok1 = assigned.get(flag) == "True"
@@ -658,7 +677,7 @@ def check_bytequeue_wait(ctx, rule):
            "ByteQueue.wait_for waits once without re-checking the predicate: the first chunk of a frame wakes the reader with too few bytes", key="predicate-loop", where=wf.where)
     ap = bq.methods["append"]
     ok = False
-    for st in rules.func_stmts(ap.node):
+    for st in rules.func_stmts(normal.normalised(ctx, ap)):  # a local for the condition is the condition
         if isinstance(st, ast.With) and any(dotted(i.context_expr) == "self._buffer_lock" for i in st.items):
             names = [call_name(c) or "" for c in calls_in(st)]
             ok = "self._buffer.extend" in names and any(x.startswith("self._buffer_lock.notify") for x in names)
